@@ -997,6 +997,9 @@ class SBT(Index):
         tree._nodes = sbt_nodes
         tree._leaves = sbt_leaves
 
+        # legacy indexes carry no min_n_below metadata; compute it as _load_v3 does
+        tree._fill_min_n_below()
+
         return tree
 
     @classmethod
@@ -1039,6 +1042,9 @@ class SBT(Index):
         tree = cls(factory, d=info["d"], cache_size=cache_size)
         tree._nodes = sbt_nodes
         tree._leaves = sbt_leaves
+
+        # legacy indexes carry no min_n_below metadata; compute it as _load_v3 does
+        tree._fill_min_n_below()
 
         return tree
 
